@@ -54,6 +54,9 @@ type runState struct {
 	maxLive  int
 	rules    map[string]int
 	kinds    map[string]int
+	// coverage: duplications of a process that holds two different channels with one identifier
+	dupSameIdent int
+	dups         int
 }
 
 func newSink() *sink {
@@ -129,6 +132,19 @@ func (s *sink) Step(re *process.RuntimeEnvironment, p *process.Process) {
 		rs.ev(e.serial, 2)
 		if rs.budget > 0 && rs.events > rs.budget {
 			rs.overrun = true
+		}
+		if len(p.Providers) > 1 && kind != "fwd" && kind != "dropfwd" {
+			rs.dups++
+			seen := map[string]chan process.Message{}
+			fns := p.Body.FreeNames()
+			rs.kinds[fmt.Sprintf("dup-with-%d-free-names", len(fns))]++
+			for _, n := range fns {
+				if c, ok := seen[n.Ident]; ok && c != n.Channel {
+					rs.dupSameIdent++
+					break
+				}
+				seen[n.Ident] = n.Channel
+			}
 		}
 		act, dur = perturb(rs.profile, rs.seed, uint64(e.serial), uint64(e.steps), kind, len(p.Providers))
 	}
